@@ -42,6 +42,8 @@ pub fn body_of(c: &str) -> Vec<u8> {
         "only_end_tags" => b"</p></div></html></body>".to_vec(),
         "cdata" => b"<![CDATA[ <body> ]]><body><![CDATA[".to_vec(),
         "doctype_only" => b"<!DOCTYPE".to_vec(),
+        // a Latin-1 document: lone bytes of the UTF-8 continuation range arrive in chunks of their own (the drivers feed byte by byte too)
+        "latin1_small_chunks" => b"<html><body>Copyright \xa9 2024 caf\xe9 \x80\x80\x80</body></html>".to_vec(),
         _ => b"<!DOCTYPE html><html><head><title>t</title></head><body class=\"x\"><p>hi</p></body></html>".to_vec(),
     }
 }
@@ -129,11 +131,25 @@ fn rule_for(call: &Value) -> Value {
     json!({
         "id": "r", "rank": rank,
         "markers": [{"name": "m", "regex": marker_regex, "transformers": [transformer(if cls(call, "transformer").is_empty() && cls(call, "capture").contains("placeholder") { "keep_case" } else { cls(call, "transformer") })]}, {"name": "h", "regex": "[^.]+", "transformers": [transformer(if cls(call, "transformer").is_empty() && cls(call, "capture").contains("placeholder") { "keep_case" } else { cls(call, "transformer") })]}],
-        "source": {"host": "@h.example.com", "path": path, "query": query, "headers": header_trigger, "ips": ips, "datetime": datetime, "time": time, "weekdays": weekdays,
+        "source": {"host": sibling_hosts(cls(call, "sibling_rule")).map(|x| x.0).unwrap_or("@h.example.com"), "path": path, "query": query, "headers": header_trigger, "ips": ips, "datetime": datetime, "time": time, "weekdays": weekdays,
                    "response_status_codes": on_codes, "sampling": sampling},
         "status_code": status, "target": target, "header_filters": header_filter, "body_filters": body_filter,
         "variables": [{"name": "m", "type": {"marker": "m"}}, {"name": "h", "type": {"marker": "h"}}, {"name": "host", "type": "request_host", "transformers": [transformer(if cls(call, "transformer").is_empty() && cls(call, "capture").contains("placeholder") { "keep_case" } else { cls(call, "transformer") })]}, {"name": "hd", "type": {"request_header": {"name": "X-K", "default": null}}}],
     })
+}
+
+/// (host of the main rule, host and path of a second rule loaded next to it) for the classes of the dimension "sibling_rule":
+/// two dynamic patterns that share a prefix end up in one node of the regex tree, which cuts the prefix character by character
+fn sibling_hosts(c: &str) -> Option<(&'static str, &'static str, &'static str)> {
+    match c {
+        "host_cyrillic_prefix" => Some(("\u{43c}\u{438}\u{440}.shop.@h.example.com", "\u{43c}\u{438}\u{440}.blog.@h.example.com", "/x/@m")),
+        "host_cjk_prefix" => Some(("\u{65e5}\u{672c}.@h.example.com", "\u{65e5}\u{672c}\u{8a9e}.@h.example.com", "/x/@m")),
+        "host_2byte_prefix" => Some(("\u{e9}a.@h.example.com", "\u{e9}\u{e9}.@h.example.com", "/x/@m")),
+        "host_emoji_prefix" => Some(("\u{1F600}-a.@h.example.com", "\u{1F600}-b.@h.example.com", "/x/@m")),
+        "path_unicode_prefix" => Some(("@h.example.com", "@h.example.com", "/x/\u{e9}\u{4e2d}/@m")),
+        "same_source" => Some(("@h.example.com", "@h.example.com", "/x/@m")),
+        _ => None,
+    }
 }
 
 fn capture_value(c: &str) -> String {
@@ -154,6 +170,8 @@ fn request_for(call: &Value, config: &RouterConfig) -> Request {
         // ('@' cannot be part of a host name: placeholder-shaped captures travel in the path only)
         _ => Some(format!("{}.example.com", if cap.is_empty() || cap.contains('@') { "abc".to_string() } else { cap })),
     };
+    // the host the main rule of a sibling class is written for
+    let host = match sibling_hosts(cls(call, "sibling_rule")) { Some((h, _, _)) => host.map(|x| h.replace("@h.example.com", &x)), None => host };
     let misc = cls(call, "request_misc");
     let mut req = Request::from_config(config, path, host, if misc == "no_scheme" { None } else if misc == "ftp_scheme" { Some("ftp".to_string()) } else { Some("http".to_string()) },
         if misc == "empty_method" { Some("".to_string()) } else if misc == "lower_method" { Some("get".to_string()) } else { Some("GET".to_string()) },
@@ -186,6 +204,21 @@ fn pipeline(call: &Value) {
     let rule = match Rule::from_json(&rule_json.to_string()) { Some(r) => r, None => return };
     let mut router = Router::<Rule>::from_config(config.clone());
     router.insert(rule.clone());
+    if let Some((_, h2, p2)) = sibling_hosts(cls(call, "sibling_rule")) {
+        let mut second = rule_json.clone();
+        second["id"] = json!("r2");
+        second["source"]["host"] = json!(h2);
+        second["source"]["path"] = json!(p2);
+        if let Some(r2) = Rule::from_json(&second.to_string()) {
+            router.insert(r2.clone());
+            // and once more in the other order, with a removal in between
+            let mut other = Router::<Rule>::from_config(config.clone());
+            other.insert(r2);
+            other.insert(rule.clone());
+            other.remove("r2");
+            other.cache(None);
+        }
+    }
     router.cache(None);
     let req = request_for(call, &config);
     let req = router.rebuild_request(&req);
@@ -225,6 +258,7 @@ fn pipeline(call: &Value) {
     let _ = serde_json::to_string(&req);
     let _ = Log::from_proxy(&req, code, &headers, Some(&action), "proxy", 1, "10.0.0.1");
     router.remove("r");
+    router.remove("r2");
 }
 
 fn analysis(call: &Value) {
